@@ -89,7 +89,7 @@ func lemmaFreqHasLocsRoundTrip(freq uint64, hasLocs bool) {
 //@ func (*memUvarintReader).ReadUvarint returns (v, err)
 //@ mode bv
 //@ requires r.C >= 0
-//@ requires r.C < len(r.S) ==> uvOK(row(r.S), off(r.S)+r.C) && uvLen(row(r.S), off(r.S)+r.C) <= len(r.S) - r.C
+//@ wf requires r.C < len(r.S) ==> uvOK(row(r.S), off(r.S)+r.C) && uvLen(row(r.S), off(r.S)+r.C) <= len(r.S) - r.C
 //@ ensures old(r.C) >= len(r.S) ==> v == 0 && err == nil && r.C == old(r.C) [C01,C07]
 //@ ensures old(r.C) < len(r.S) ==> err == nil && v == uvVal(row(r.S), off(r.S)+old(r.C)) [C01,C06,C09]
 //@ ensures old(r.C) < len(r.S) ==> r.C == old(r.C) + uvLen(row(r.S), off(r.S)+old(r.C)) [C01,C06,C09]
@@ -102,7 +102,7 @@ func lemmaFreqHasLocsRoundTrip(freq uint64, hasLocs bool) {
 //@ func (*memUvarintReader).SkipUvarint
 //@ mode bv
 //@ requires r.C >= 0 && r.C <= 0x4000000000000000
-//@ requires r.C < len(r.S) ==> uvLen(row(r.S), off(r.S)+r.C) <= len(r.S) - r.C && (uvLen(row(r.S), off(r.S)+r.C) < 10 || row(r.S)[off(r.S)+r.C+9] < 0x80)
+//@ wf requires r.C < len(r.S) ==> uvLen(row(r.S), off(r.S)+r.C) <= len(r.S) - r.C && (uvLen(row(r.S), off(r.S)+r.C) < 10 || row(r.S)[off(r.S)+r.C+9] < 0x80)
 //@ ensures old(r.C) >= len(r.S) ==> r.C == old(r.C) [C01,C07]
 //@ ensures old(r.C) < len(r.S) ==> r.C == old(r.C) + uvLen(row(r.S), off(r.S)+old(r.C)) [C01,C06,C07]
 //@ modifies memUvarintReader.C
@@ -125,6 +125,7 @@ func lemmaFreqHasLocsRoundTrip(freq uint64, hasLocs bool) {
 //@ func (*Segment).closeActual returns (err)
 //@ thin
 //@ tags [C20]
+//@ requires s.synIndexCache != nil && muHeld(s.synIndexCache.m) == 0
 //@ requires s.mm != nil ==> mmMapped(base(s.mm))
 //@ requires s.f != nil ==> fileOpen(s.f)
 //@ ensures old(s.mm) != nil ==> !mmMapped(old(base(s.mm))) && mmUnmaps(old(base(s.mm))) == old(mmUnmaps(base(s.mm))) + 1 && $liveMaps == old($liveMaps) - 1
@@ -138,6 +139,7 @@ func lemmaFreqHasLocsRoundTrip(freq uint64, hasLocs bool) {
 //@ func (*Segment).DecRef returns (err)
 //@ thin
 //@ tags [C20]
+//@ requires s.synIndexCache != nil && muHeld(s.synIndexCache.m) == 0
 //@ requires muHeld(s.m) == 0
 //@ requires s.refs == 1 ==> (s.mm != nil ==> mmMapped(base(s.mm))) && (s.f != nil ==> fileOpen(s.f))
 //@ ensures s.refs == old(s.refs) - 1 || old(s.refs) == -9223372036854775808
@@ -152,6 +154,7 @@ func lemmaFreqHasLocsRoundTrip(freq uint64, hasLocs bool) {
 //@ func (*Segment).Close returns (err)
 //@ thin
 //@ tags [C20]
+//@ requires s.synIndexCache != nil && muHeld(s.synIndexCache.m) == 0
 //@ requires muHeld(s.m) == 0
 //@ requires s.refs == 1 ==> (s.mm != nil ==> mmMapped(base(s.mm))) && (s.f != nil ==> fileOpen(s.f))
 //@ ensures s.refs == old(s.refs) - 1 || old(s.refs) == -9223372036854775808
@@ -162,9 +165,9 @@ func lemmaFreqHasLocsRoundTrip(freq uint64, hasLocs bool) {
 // ---- C17 / C18: writers, persist, merge driver ----
 
 //@ func (*CountHashWriter).Write returns (n, err)
-//@ requires c.w != nil
-//@ requires typeis(c.w, ptr_CountHashWriter) ==> ptr_CountHashWriter(payload(c.w)) != c && ptr_CountHashWriter(payload(c.w)).w != nil && !typeis(ptr_CountHashWriter(payload(c.w)).w, ptr_CountHashWriter) && !typeis(ptr_CountHashWriter(payload(c.w)).w, ptr_bufWriter)
-//@ requires typeis(c.w, ptr_bufWriter) ==> ptr_bufWriter(payload(c.w)).w != nil
+//@ wf requires c.w != nil
+//@ wf requires typeis(c.w, ptr_CountHashWriter) ==> ptr_CountHashWriter(payload(c.w)) != c && ptr_CountHashWriter(payload(c.w)).w != nil && !typeis(ptr_CountHashWriter(payload(c.w)).w, ptr_CountHashWriter) && !typeis(ptr_CountHashWriter(payload(c.w)).w, ptr_bufWriter)
+//@ wf requires typeis(c.w, ptr_bufWriter) ==> ptr_bufWriter(payload(c.w)).w != nil
 //@ ensures 0 <= n && n <= len(b) [C04,C17]
 //@ ensures err == nil ==> n == len(b) [C17]
 //@ ensures old(c.n) <= 0x3fffffffffffffff ==> c.n == old(c.n) + n [C04,C05,C17]
@@ -197,7 +200,7 @@ func lemmaFreqHasLocsRoundTrip(freq uint64, hasLocs bool) {
 //@ end
 
 //@ func (*bufWriter).Write returns (n, err)
-//@ requires br.w != nil
+//@ wf requires br.w != nil
 //@ ensures 0 <= n && n <= len(in) [C17]
 //@ ensures err == nil ==> n == len(in) [C17]
 //@ ensures old(br.n) <= 0x3fffffffffffffff ==> br.n == old(br.n) + n [C04,C17]
@@ -285,4 +288,152 @@ func verifModelBinaryWrite(w io.Writer, order binary.ByteOrder, data any) error 
 //@ requires sb != nil && !fsExists(path)
 //@ ensures err != nil ==> !fsExists(path) [C04,C17]
 //@ propagates err from PersistSegmentBase [C17]
+//@ end
+
+// ---- C17 / C18: the merge driver ----
+
+//@ func mergeSegmentBases returns (newDocNums, size, err)
+//@ thin
+//@ requires !fsExists(path)
+//@ propagates err from os.OpenFile, mergeToWriter, persistFooter, (*bufio.Writer).Flush, (*os.File).Sync, (*os.File).Close [C17,C18,C19]
+//@ ensures err != nil ==> !fsExists(path) [C17,C18,C19]
+//@ ensures $liveFiles == old($liveFiles) [C17,C18]
+//@ local ensures err == nil ==> fsExists(path) && fileSynced(f) && !fileOpen(f) && !bwDirty(br) && !bwErr(br) && bwFlushedTo(br) == wrBytes(br) [C17,C18]
+//@ ensures old(chanClosed(closeCh)) ==> err != nil [C18]
+//@ local ensures old(chanClosed(closeCh)) && f != nil ==> err == seg.ErrClosed [C18]
+//@ ensures chanClosed(closeCh) ==> err != nil [C18]
+//@ end
+
+//@ func mergeToWriter returns (newDocNums, numDocs, storedIndexOffset, fieldsInv, fieldsMap, sectionsIndexOffset, err)
+//@ thin
+//@ requires cr != nil
+//@ propagates err from mergeStoredAndRemap, Merge, persistFieldsSection [C17,C18,C19]
+//@ ensures old(chanClosed(closeCh)) ==> err == seg.ErrClosed [C18]
+//@ ensures chanClosed(closeCh) && !old(chanClosed(closeCh)) ==> err == seg.ErrClosed [C18]
+//@ ensures old(chanClosed(closeCh)) ==> chanClosed(closeCh)
+//@ loop 1 invariant chanClosed(closeCh) == old(chanClosed(closeCh)) [C18]
+//@ modifies *, ghost chanClosed[closeCh]
+//@ end
+
+//@ func mergeStoredAndRemap returns (storedIndexOffset, rv, err)
+//@ thin
+//@ requires w != nil
+//@ ensures chanClosed(closeCh) && !old(chanClosed(closeCh)) ==> err == seg.ErrClosed [C18]
+//@ ensures old(chanClosed(closeCh)) ==> chanClosed(closeCh)
+//@ propagates err from copyStoredDocs, visitStoredFields, writeUvarints, (*CountHashWriter).Write, persistStoredFieldValues [C17]
+//@ ensures $poolBalance == old($poolBalance) [C11]
+//@ loop 1 invariant chanClosed(closeCh) == old(chanClosed(closeCh)) [C18]
+//@ loop 1 invariant poolOwned(vdc) && $poolBalance == old($poolBalance) + 1 [C11]
+//@ loop 3 invariant poolOwned(vdc) && $poolBalance == old($poolBalance) + 1 [C11]
+//@ modifies *, ghost chanClosed[closeCh], ghost poolBalance, ghost poolOwned
+//@ end
+
+//@ func (*synonymIndexCache).Clear
+//@ tags [C11,C20]
+//@ requires muHeld(sc.m) == 0
+//@ ensures muHeld(sc.m) == 0
+//@ ensures sc.cache == nil [C20]
+//@ modifies synonymIndexCache.cache[sc], ghost muHeld[addr(sc.m)]
+//@ end
+
+// ---- C07 / C08 / C11: postings list reuse, counts, shared sentinels ----
+
+//@ func (*Dictionary).postingsListInit returns (r)
+//@ tags [C07,C08,C11]
+//@ requires d != nil
+//@ ensures r != nil && r != emptyPostingsList [C11]
+//@ ensures (rv == nil || rv == emptyPostingsList) ==> fresh(r) && r.postings == nil [C07]
+//@ ensures rv != nil && rv != emptyPostingsList ==> r == rv && r.postings == old(rv.postings) [C07]
+//@ ensures r.sb == d.sb && r.except == except && allzero(r, sb, except, postings) [C07,C08,C10]
+//@ ensures r.postings != nil ==> bmSet(r.postings) == sEmpty() [C07]
+//@ ensures allzero(emptyPostingsList) [C11]
+//@ requires allzero(emptyPostingsList)
+//@ end
+
+//@ func (*PostingsList).Count returns (n)
+//@ tags [C07,C08]
+//@ requires p != nil
+//@ modifies nothing
+//@ ensures p.normBits1Hit != 0 ==> n == ite(p.except != nil && sHas(bmSet(p.except), uint32(p.docNum1Hit)), 0, 1)
+//@ ensures p.normBits1Hit == 0 && p.postings != nil ==> n == uint64(sCard(sAndNot(bmSet(p.postings), ite(p.except != nil, bmSet(p.except), sEmpty()))))
+//@ ensures p.normBits1Hit == 0 && p.postings == nil ==> n == 0
+//@ end
+
+//@ func (*PostingsList).init1Hit returns (err)
+//@ tags [C06,C07,C08,C09]
+//@ requires rv != nil
+//@ ensures err == nil && rv.docNum1Hit == fstVal & mask31Bits && rv.normBits1Hit == (fstVal >> 31) & mask31Bits
+//@ modifies PostingsList.docNum1Hit[rv], PostingsList.normBits1Hit[rv]
+//@ end
+
+//@ func (*PostingsList).read returns (err)
+//@ thin
+//@ tags [C07,C08]
+//@ requires rv != nil && d != nil && d.sb != nil
+//@ ensures err == nil ==> rv.postingsOffset == postingsOffset
+//@ ensures err == nil && postingsOffset & FSTValEncodingMask == FSTValEncoding1Hit ==> rv.docNum1Hit == postingsOffset & mask31Bits && rv.normBits1Hit == (postingsOffset >> 31) & mask31Bits [C06,C07,C08,C09]
+//@ ensures err == nil && postingsOffset & FSTValEncodingMask != FSTValEncoding1Hit ==> rv.normBits1Hit == 0 && rv.docNum1Hit == 0 [C07,C08]
+//@ ensures err == nil && postingsOffset & FSTValEncodingMask != FSTValEncoding1Hit ==> rv.postings != nil [C07,C08]
+//@ end
+
+// ---- C11 (and C02): exclusive ownership of pooled scratch objects ----
+
+//@ func (*SegmentBase).visitStoredFields returns (err)
+//@ thin
+//@ tags [C02,C11]
+//@ requires s != nil && vdc != nil && poolOwned(vdc)
+//@ ensures poolOwned(vdc) [C11]
+//@ ensures $poolBalance == old($poolBalance) [C11]
+//@ modifies *, ghost poolOwned[vdc], ghost poolBalance
+//@ end
+
+//@ func (*SegmentBase).VisitStoredFields returns (err)
+//@ thin
+//@ tags [C02,C11]
+//@ requires s != nil
+//@ ensures $poolBalance == old($poolBalance) [C11]
+//@ end
+
+//@ func (*SegmentBase).DocID returns (id, err)
+//@ thin
+//@ tags [C02,C11]
+//@ requires s != nil
+//@ ensures err == nil ==> $poolBalance == old($poolBalance) [C11]
+//@ ensures num >= s.numDocs ==> id == nil && err == nil [C02]
+//@ end
+
+// ---- C06: single-hit dictionary entries ----
+
+//@ func mergeAndPersistInvertedSection$1 returns (ok, docNum, normBits)
+//@ thin
+//@ tags [C06]
+//@ requires newRoaring != nil && locEncoder != nil
+//@ ensures ok ==> termCardinality == 1 && docNum <= 0x7fffffff && docNum == lastDocNum && lastFreq == 1 && normBits == lastNorm
+//@ ensures ok ==> 0 < normBits && normBits <= 0x7fffffff
+//@ end
+
+//@ lemma lemma1HitDiscriminator
+//@ mode bv
+//@ requires docNum <= mask31Bits && 0 < normBits && normBits <= mask31Bits
+//@ tags [C06,C09]
+//@ end
+func lemma1HitDiscriminator(docNum, normBits uint64) {
+	v := FSTValEncode1Hit(docNum, normBits)
+	verifAssert(v&FSTValEncodingMask == FSTValEncoding1Hit)
+	d, n := FSTValDecode1Hit(v)
+	verifAssert(d == docNum && n == normBits && n != 0)
+}
+
+// ---- C13: merged thesauri ----
+
+//@ func mergeAndPersistSynonymSection returns (addrs, ids, err)
+//@ thin
+//@ tags [C13]
+//@ requires w != nil
+//@ loop 3 invariant !bm64Empty(newRoaring) ==> prevTerm != nil [C13]
+//@ assert (*vellum.Builder).Close#1 : bm64Empty(newRoaring) [C13]
+//@ ensures chanClosed(closeCh) && !old(chanClosed(closeCh)) ==> err == seg.ErrClosed [C18]
+//@ loop 1 invariant chanClosed(closeCh) == old(chanClosed(closeCh)) [C18]
+//@ loop 2 invariant chanClosed(closeCh) == old(chanClosed(closeCh)) [C18]
+//@ loop 3 invariant chanClosed(closeCh) == old(chanClosed(closeCh)) [C18]
 //@ end
